@@ -116,7 +116,12 @@ class Scanner:
                 break
 
     def error(self, message: str) -> Never:
-        token = Token(TokenKind.ERROR, self.grammar[self.pos], self.start, self.grammar)
+        token = Token(
+            TokenKind.ERROR,
+            self.grammar[self.pos : self.pos + 1],  # Empty at the end of the text.
+            self.start,
+            self.grammar,
+        )
         raise PestGrammarSyntaxError(message, token=token)
 
     def scan_grammar(self) -> StateFn | None:
